@@ -30,7 +30,9 @@ func (d Directive) Path() (string, error) {
 		return d.Parent.Path()
 	}
 
-	if !strings.HasPrefix(path, "/") {
+	// A blank cannot be a part of the path: it separates the fields of the interaction
+	// id ("http GET /path", "json-rpc-2.0 method /path"), which would become ambiguous.
+	if !strings.HasPrefix(path, "/") || strings.ContainsAny(path, " \t") {
 		return "", errors.New(jerr.IncorrectPath)
 	}
 
